@@ -165,7 +165,14 @@ def _directed(ctx, pk):
     xml = ("<schema><import package='%s'/><multisection type='dira' name='*' attribute='a'/>"
            "<multisection type='dirb' name='*' attribute='b'/></schema>")
     # 'dirb' must be a known type for the slot: declare the slot types abstractly instead
-    xml = ("<schema><import package='%s'/><abstracttype name='anyt'/><multisection type='dira' name='*' attribute='a'/>"
+    # a component whose type EXTENDS a type of the schema under another key type (the inherited wildcard defaults are then
+    # re-normalised for the derived type - which must not touch the base type's own defaults)
+    pe = pk.add_component([F.TypeD("dire", [], extends="wbase", keytype="basic-key")])
+    xml = ("<schema><import package='%s'/><abstracttype name='anyt'/>"
+           "<sectiontype name='wbase' keytype='identifier'><key name='+' attribute='m'><default key='Path'>p</default>"
+           "<default key='HOME'>h</default></key></sectiontype>"
+           "<multisection type='wbase' name='*' attribute='wbs'/>"
+           "<multisection type='dira' name='*' attribute='a'/>"
            "<multisection type='anyt' name='*' attribute='anys'/><key name='plain'/></schema>") % pa
 
     def fresh():
@@ -187,6 +194,7 @@ def _directed(ctx, pk):
         "import-known-then-other": ["%%import %s\n%%import %s\nplain x\n" % (pa, pb), "plain y\n<dira/>\n", "plain z\n%%import %s\n" % pb],
         "dotted-datatypes-case": ["%%import %s\n<dirc>\nk 5\n</dirc>\n" % pc, "%%import %s\n<dird>\nk 7\n</dird>\n" % pd,
                                   "%%import %s\n%%import %s\n<dird>\nk 1\n</dird>\n<dirc>\nk 2\n</dirc>\n" % (pd, pc)],
+        "import-deriving-component": ["<wbase/>\n", "%%import %s\nplain x\n" % pe, "<wbase/>\n<wbase x>\nExtra v\n</wbase>\n"],
         "import-then-use-without-import": ["%%import %s\nplain x\n" % pb, "plain y\n", "%%import %s\n<dira/>\n" % pa],
     }
     for hname, texts in histories.items():
